@@ -16,6 +16,9 @@ SimNext == \/ \E s \in Series : NewRegister(s) /\ L(<<"register", s[1], s[2]>>)
            \/ \E d \in TickSet : Tick(d) /\ L(<<"tick", d>>)
            \/ \E s \in Series : Mode = "direct" /\ Observe(s) /\ L(<<"observe", s[1], s[2], \A o \in obs' : o.keep>>)
            \/ Render /\ L(<<"render">>)
+           \/ \E s \in Series : Mode = "direct" /\ RegRemove(s) /\ L(<<"remove", s[1], s[2]>>)
+           \/ \E ob \in Observers : \E s \in Series : Mode = "direct" /\ Snap(ob, s) /\ L(<<"osnap", ob, s[1], s[2]>>)
+           \/ \E ob \in Observers : Mode = "direct" /\ SlotDecide(ob) /\ L(<<"odecide", ob>>)
 SimSpec == SimInit /\ [][SimNext]_<<vars, hist>>
 Emit == steps = MaxSteps =>
           PrintT(<<"REPLAY", ToJson([mode |-> Mode, mask |-> mask, timeout |-> timeout, ops |-> hist])>>)
